@@ -245,6 +245,10 @@ func vPar(shared interface{}, a, b func()) {
 	vInPar, rand.VerifBypass = false, false
 }
 
+// vRandSameInts: a bound on the explored draws (all integer draws of the section return one value); natively the
+// script already satisfies it.
+func vRandSameInts(on bool) {}
+
 // vParallelSection: natively the code between on and off starts real goroutines (go statements of the code under
 // test); math/rand draws inside it are answered by the real generator instead of the script, as in vPar.
 func vParallelSection(on bool) { vInPar, rand.VerifBypass = on, on }
